@@ -16,12 +16,27 @@ def ref_source():
         return f.read()
 
 
-def template_check(repo, chk, rule, qual, name, what):
+BENIGN_CALLS = ('logger.', 'logging.', 'print', 'warnings.warn', 'sys.stderr.write', 'sys.stdout.write')
+
+
+def benign_extra(e):
+    """An extra effect that cannot change results: logging / printing."""
+    if e.kind == 'call' and isinstance(e.value, ast.Call):
+        nm = call_name(e.value) or ''
+        return nm == 'print' or any(nm.startswith(b) for b in BENIGN_CALLS)
+    return False
+
+
+def template_check(repo, chk, rule, qual, name, what, ref=None, keep=()):
+    """The function has exactly the effects of its reference form (modulo renaming, inlining of locals,
+    commutativity / associativity, distribution over the semiring); logging-only extras are ignored."""
     fi = repo.func(qual)
-    ok, missing, extra = compare(fi, template_func(ref_source(), name))
+    ok, missing, extra = compare(fi, template_func(ref or ref_source(), name), keep=keep)
+    extra = [e for e in extra if not benign_extra(e)]
+    ok = not missing and not extra
     detail = ''
     if not ok:
-        detail = 'expected: ' + ' || '.join(e.show() for e in missing)[:600] + '  ## found: ' + ' || '.join(e.show() for e in extra)[:600]
+        detail = 'expected: ' + ' || '.join(e.show() for e in missing)[:700] + '  ## found instead: ' + ' || '.join(e.show() for e in extra)[:700]
     node = extra[0].node if extra else fi.node
     chk.ob(rule, fi, node, what, ok, detail, construct='template ' + name)
     return ok
